@@ -218,6 +218,8 @@ class Norm:
             out.append((elt, fors, c))
         # inside an iteration over a source, that source is not empty
         out = [(e, f, self.simp(nonempty_sources(c, f))) if f and c != TRUE else (e, f, c) for e, f, c in out]
+        # the element is only looked at under the generator's condition
+        out = [(restrict(e, c), f, c) if c != TRUE else (e, f, c) for e, f, c in out]
         out = [g for g in out if g[2] != FALSE and self.feasible(g)]
         out = self.merge_exclusive(out)
         if len(out) == 1:
@@ -503,7 +505,13 @@ class Norm:
                 return FALSE
             if any(not g[2] and g[3] == TRUE for g in n[1]):
                 return TRUE
-            return ("truthy", n)
+            # whether a collection is empty does not depend on what its elements are
+            gens = []
+            for g in n[1]:
+                u = ("g", ("const", "*"), g[2], g[3])
+                if u not in gens:
+                    gens.append(u)
+            return ("truthy", ("bag", tuple(gens)))
         if tag == "len":
             return self.truthy(n[1])
         if tag in ("getnone", "getempty"):
@@ -631,6 +639,25 @@ def blake(c):
         lits = [atoms[k] if p[k] else c_not(atoms[k]) for k in range(n) if p[k] is not None]
         terms.append(c_and(lits))
     return c_or(terms)
+
+
+def restrict(t, c):
+    """Resolves conditionals inside `t` that the condition `c` (a literal or a conjunction of literals) decides."""
+    known = set(c[1]) if c[0] == "and" else {c}
+
+    def walk(x):
+        if not isinstance(x, tuple) or not x:
+            return x
+        if x[0] == "ite":
+            if x[1] in known:
+                return walk(x[2])
+            if c_not(x[1]) in known:
+                return walk(x[3])
+        if x[0] == "bag":
+            return x  # nested collections carry their own conditions
+        return tuple(walk(y) if isinstance(y, tuple) else y for y in x)
+
+    return walk(t)
 
 
 def nonempty_sources(c, fors):
